@@ -703,3 +703,37 @@ Proof.
   - destruct text; reflexivity.
   - destruct LF as [(A & B & C)|[(A & B & C)|(A & B & C)]]; cbn [flen new_frame] in *; lia.
 Qed.
+
+Theorem encode_layout_bytes f : wf f -> FrameBytes f (encode f) /\ Forall byte (encode f).
+Proof. intro H. split; [exact (encode_layout f H) | exact (encode_bytes f H)]. Qed.
+
+(* a non-trivial frame used by the examples of props/C10.v *)
+Definition ex_frame : frame :=
+  mkFrame true false true false Binary true 5 (mkKey 1 2 3 255) [104; 101; 108; 108; 111].
+
+Lemma ex_wf : wf ex_frame /\ encode ex_frame = [162; 133; 1; 2; 3; 255; 105; 103; 111; 147; 110].
+Proof.
+  split; [|vm_compute; reflexivity].
+  unfold wf, key_ok, byte, ex_frame; cbn. repeat split; try lia; repeat constructor.
+Qed.
+
+Lemma ex_split :
+  wf_chunks [[162]; [133; 1; 2]; [3; 255; 105; 103]; [111; 147; 110; 77]] /\
+  decode [[162]; [133; 1; 2]; [3; 255; 105; 103]; [111; 147; 110; 77]] = Ok (ex_frame, [[77]]) /\
+  decode (bytewise [162; 133; 1; 2; 3; 255; 105; 103; 111; 147]) = Err ReadError /\
+  decode [[131; 0]] = Err InvalidOpcode /\
+  strict_prefix [162; 133; 1] (encode ex_frame).
+Proof.
+  split; [repeat constructor; discriminate|]. split; [vm_compute; reflexivity|]. split; [vm_compute; reflexivity|].
+  split; [vm_compute; reflexivity|]. exists [2; 3; 255; 105; 103; 111; 147; 110]. split; [discriminate|vm_compute; reflexivity].
+Qed.
+
+Lemma ex_lengths :
+  firstn 4 (encode (new_frame Text (repeat 97 126))) = [129; 126; 0; 126] /\
+  firstn 10 (encode (new_frame Binary (repeat 0 (N.to_nat 65536)))) = [130; 127; 0; 0; 0; 0; 0; 1; 0; 0] /\
+  wf (new_frame Binary (repeat 0 (N.to_nat 65536))).
+Proof.
+  split; [vm_compute; reflexivity|]. split; [vm_compute; reflexivity|].
+  apply new_frame_wf; [vm_compute; reflexivity|]. apply Forall_forall. intros x Hx. apply repeat_spec in Hx. subst. reflexivity.
+Qed.
+
